@@ -341,3 +341,54 @@ func VerifC18Arbitrary() {
 		rt.Assert(len(l1) == len(l2), "same-imports-when-valid")
 	}
 }
+
+// VerifC18NewlineInString: an import path literal holding a raw newline. In
+// an interpreted string that is a syntax error: reported when asked for,
+// and otherwise the whole input comes back (so that a full parse reports
+// the error). The same bytes in a raw string are a valid import path.
+func VerifC18NewlineInString() {
+	a, b := rt.Byte(), rt.Byte()
+	rt.Assume(a >= 'a' && a <= 'z')
+	rt.Assume(b >= 'a' && b <= 'z')
+	bodies := []string{
+		"\n" + string([]byte{a, b}),
+		string([]byte{a}) + "\n" + string([]byte{b}),
+		string([]byte{a, b}) + "\n",
+		string([]byte{a}) + "\r\n" + string([]byte{b}),
+	}
+	form := rt.IntRange(0, 3)
+	body := bodies[form]
+	pre := []string{"package p\nimport ", "package p\nimport x ", "package p\nimport (\n\t\"c\"\n\t", "package p;import \"c\";import "}[rt.IntRange(0, 3)]
+	grouped := strings.HasSuffix(pre, "(\n\t\"c\"\n\t")
+	post := "\n"
+	if grouped {
+		post = "\n)\n"
+	}
+	rest := "var x = 1\n"
+	if rt.Bool() {
+		// raw string: valid (a carriage return inside a raw string is
+		// left aside: go/scanner drops it from the literal's value)
+		rt.Assume(form != 3)
+		lit := "`" + body + "`"
+		src := []byte(pre + lit + post + rest)
+		want := []string{lit}
+		if strings.Contains(pre, "\"c\"") {
+			want = []string{"\"c\"", lit}
+		}
+		rt.Reach("newline-in-raw-string")
+		vCheckFile(src, false, want, len(src)-len(rest)-1, len(src)-len(rest))
+		return
+	}
+	src := []byte(pre + "\"" + body + "\"" + post + rest)
+	rt.Observe("src", src)
+	var l1, l2 []string
+	_, err1 := ReadImports(bytes.NewReader(src), true, &l1)
+	got2, err2 := ReadImports(bytes.NewReader(src), false, &l2)
+	rt.Reach("newline-in-interpreted-string")
+	rt.Assert(err1 == errSyntax, "newline-in-interpreted-string-is-a-syntax-error")
+	rt.Assert(err2 == nil, "lenient-reports-no-error")
+	rt.Assert(len(got2) == len(src), "lenient-returns-whole-input")
+	if len(got2) == len(src) {
+		rt.Assert(rt.BytesEq(got2, src), "lenient-returns-the-input-bytes")
+	}
+}
